@@ -871,6 +871,22 @@ class Interp(BuiltinsMixin, StmtMixin, DictMixin):
                 if not self.dec.branch(st, models.in_range(idx.e, n)):
                     raise PyRaise(VExc("IndexError"))
             return VStr(z3.SubString(obj.e, models.norm_index(idx.e, n), 1))
+        if isinstance(obj, VRef) and obj.cls not in (None, "list", "set",
+                                                     "dict"):
+            key = None
+            for c in self.uni.repo.mro(obj.cls):
+                if f"{c}.__getitem__" in self.uni.method_hooks:
+                    key = f"{c}.__getitem__"
+                    break
+            kind, info, fn = self.uni.repo.find_attr(obj.cls, "__getitem__")
+            if key is not None or kind == "method":
+                if not fr.spec:
+                    self.nonnull(obj, st, fr, "[]")
+                if kind == "method":
+                    return self.call_function(fn, info, obj, [idx], {}, st,
+                                              fr)
+                return self.uni.method_hooks[key](self, obj, [idx], {}, st,
+                                                  fr)
         if isinstance(obj, VRef) and obj.cls == "dict":
             if not fr.spec:
                 self.nonnull(obj, st, fr, "[]")
